@@ -136,3 +136,59 @@ func VerifC19Init() {
 	}
 	vnd.Cover("C19.end")
 }
+
+func init() { verifEntries["VerifC19Signal"] = VerifC19Signal }
+
+// VerifC19Signal: the initialization watch channel closes only after a snapshot
+// showing the table initialized can be obtained - checked by the VM's sync
+// observer at every synchronisation operation inside the committing transaction.
+func VerifC19Signal() {
+	d := newVDB()
+	t := d.table
+	w := d.db.WriteTxn(t)
+	doneX := t.RegisterInitializer(w, "x")
+	var doneY func(WriteTxn)
+	two := vnd.Bool("two")
+	if two {
+		doneY = t.RegisterInitializer(w, "y")
+	}
+	w.Commit()
+	init, ch := t.Initialized(d.db.ReadTxn())
+	vnd.Assert(!init && !vnd.IsClosed(ch), "C19.signal.uninitialized")
+	vnd.SetSyncObserver(func(point string) {
+		if vnd.IsClosed(ch) {
+			ok, _ := t.Initialized(d.db.ReadTxn())
+			vnd.Assert(ok, "C19.signal.closed-before-visible")
+		}
+	})
+	w = d.db.WriteTxn(t)
+	doneX(w)
+	yMarked := false
+	if two && vnd.Bool("both-in-one") {
+		doneY(w)
+		yMarked = true
+	}
+	commit := vnd.Bool("commit")
+	if commit {
+		w.Commit()
+		if yMarked {
+			doneY = nil
+		}
+	} else {
+		w.Abort()
+		vnd.Assert(!vnd.IsClosed(ch), "C19.signal.closed-by-abort")
+		w = d.db.WriteTxn(t)
+		doneX(w)
+		w.Commit()
+	}
+	if two && doneY != nil {
+		vnd.Assert(!vnd.IsClosed(ch), "C19.signal.closed-with-pending-initializer")
+		w = d.db.WriteTxn(t)
+		doneY(w)
+		w.Commit()
+	}
+	vnd.SetSyncObserver(nil)
+	ok, _ := t.Initialized(d.db.ReadTxn())
+	vnd.Assert(ok && vnd.IsClosed(ch), "C19.signal.initialized-and-signalled")
+	vnd.Cover("C19.signal.end")
+}
